@@ -279,7 +279,7 @@ termination_by structural fuel _ _ => fuel
     `data` is already clipped to the volume; returns the files and `FreeSpace` -/
 def parseFilesG (h : HooksG) (inner : Inner) : Nat → Bytes → Nat → Nat → Nat → St → GoM (List File × Nat × St)
   | fuel, data, offset, lh, length, st =>
-    if offset < lh then
+    if offset ≤ lh then
       match fuel with
       | 0 => outOfFuel
       | fuel+1 =>
